@@ -27,9 +27,9 @@ theorem areasOf_good_R1 {c : Ctx} {f : Feat} (hf : featOK c f = true) (h gid : I
   · simp [areasOf, hcr, hrc]
   · cases kind
     · -- protocluster: needs the core
-      obtain ⟨k0, k1, k2, k3, k4⟩ := proto_core hf rfl
-      simp only at k0 k1 k2 k3 k4
-      rcases core_cases k0 k1 k2 k3 k4 with
+      obtain ⟨k0, k1, k2, k3⟩ := proto_core hf rfl
+      simp only at k0 k1 k2 k3
+      rcases core_cases k0 k1 k2 k3 with
         ⟨p', q, hp', hq, g1, g2, g3⟩ | ⟨s, e, q, hp', _⟩ | ⟨s, e, cs, ce, hp', _⟩
       · try simp only at hp' hq
         cases hp'
@@ -53,9 +53,9 @@ theorem areasOf_good_R2 {c : Ctx} {f : Feat} (hf : featOK c f = true) (h gid : I
   have hrc : Ctx.regionCrosses ⟨.simple ⟨0, L, st⟩, L, true⟩ = false := by simp [Ctx.regionCrosses, Loc.parts]
   have hext : Ctx.extend ⟨.simple ⟨0, L, st⟩, L, true⟩ = true := by simp [Ctx.extend, hrc]
   cases kind
-  · obtain ⟨k0, k1, k2, k3, k4⟩ := proto_core hf rfl
-    simp only at k0 k1 k2 k3 k4
-    rcases core_cases k0 k1 k2 k3 k4 with
+  · obtain ⟨k0, k1, k2, k3⟩ := proto_core hf rfl
+    simp only at k0 k1 k2 k3
+    rcases core_cases k0 k1 k2 k3 with
       ⟨p', q, hp', _⟩ | ⟨s', e', q, hp', hq, g1, g2⟩ | ⟨s', e', cs, ce, hp', hq, g1, g2, g3, g4, g5⟩
     · simp at hp'
     · try simp only at hp' hq
@@ -65,19 +65,19 @@ theorem areasOf_good_R2 {c : Ctx} {f : Feat} (hf : featOK c f = true) (h gid : I
       · have hge : s ≤ q.lo := g2
         simp [areasOf, hext, hcr, hrc, adjustCrossOrigin, Area.crossesOrigin, Area.fromFeature, Feat.start,
           Feat.end, Feat.coreStart, Feat.coreEnd, he2, hge]
-        have : ¬ (q.hi < q.lo) := by omega
+        have : ¬ (q.hi ≤ q.lo) := by omega
         simp [this]
         apply good_pair <;> fin
       · have hlt : ¬ (s ≤ q.lo) := by omega
         simp [areasOf, hext, hcr, hrc, adjustCrossOrigin, Area.crossesOrigin, Area.fromFeature, Feat.start,
           Feat.end, Feat.coreStart, Feat.coreEnd, he2, hlt]
-        have : ¬ (q.hi < q.lo) := by omega
+        have : ¬ (q.hi ≤ q.lo) := by omega
         simp [this]
         apply good_pair <;> fin
     · try simp only at hp' hq
       cases hp'
       subst hq
-      have : ce < cs := by omega
+      have : ce ≤ cs := by omega
       simp [areasOf, hext, hcr, hrc, adjustCrossOrigin, Area.crossesOrigin, Area.fromFeature, Feat.start,
         Feat.end, Feat.coreStart, Feat.coreEnd, he2, this]
       apply good_pair <;> fin
@@ -113,9 +113,9 @@ theorem areasOf_good_R3 {c : Ctx} {f : Feat} (hf : featOK c f = true) (h gid : I
     refine ⟨[Area.fromFeature ⟨.simple p, kind, core, single, product⟩ h], ?_, ?_⟩
     · simp [areasOf, hcr, hext, hlast, hin]
     · cases kind
-      · obtain ⟨k0, k1, k2, k3, k4⟩ := proto_core hf rfl
-        simp only at k0 k1 k2 k3 k4
-        rcases core_cases k0 k1 k2 k3 k4 with
+      · obtain ⟨k0, k1, k2, k3⟩ := proto_core hf rfl
+        simp only at k0 k1 k2 k3
+        rcases core_cases k0 k1 k2 k3 with
           ⟨p', q, hp', hq, g1, g2, g3⟩ | ⟨s, e, q, hp', _⟩ | ⟨s, e, cs, ce, hp', _⟩
         · cases hp'
           subst hq
@@ -130,9 +130,9 @@ theorem areasOf_good_R3 {c : Ctx} {f : Feat} (hf : featOK c f = true) (h gid : I
     refine ⟨[(Area.fromFeature ⟨.simple p, kind, core, single, product⟩ h).offset L], ?_, ?_⟩
     · simp [areasOf, hcr, hext, hlast, hin, hrc]
     · cases kind
-      · obtain ⟨k0, k1, k2, k3, k4⟩ := proto_core hf rfl
-        simp only at k0 k1 k2 k3 k4
-        rcases core_cases k0 k1 k2 k3 k4 with
+      · obtain ⟨k0, k1, k2, k3⟩ := proto_core hf rfl
+        simp only at k0 k1 k2 k3
+        rcases core_cases k0 k1 k2 k3 with
           ⟨p', q, hp', hq, g1, g2, g3⟩ | ⟨s, e, q, hp', _⟩ | ⟨s, e, cs, ce, hp', _⟩
         · cases hp'
           subst hq
@@ -159,9 +159,9 @@ theorem areasOf_good_R5 {c : Ctx} {f : Feat} (hf : featOK c f = true) (h gid : I
   have hext : Ctx.extend ⟨.compound [⟨S, L, .fwd⟩, ⟨0, E, .fwd⟩], L, true⟩ = true := by
     simp [Ctx.extend, hrc]
   cases kind
-  · obtain ⟨k0, k1, k2, k3, k4⟩ := proto_core hf rfl
-    simp only at k0 k1 k2 k3 k4
-    rcases core_cases k0 k1 k2 k3 k4 with
+  · obtain ⟨k0, k1, k2, k3⟩ := proto_core hf rfl
+    simp only at k0 k1 k2 k3
+    rcases core_cases k0 k1 k2 k3 with
       ⟨p', q, hp', _⟩ | ⟨s', e', q, hp', hq, g1, g2⟩ | ⟨s', e', cs, ce, hp', hq, g1, g2, g3, g4, g5⟩
     · simp at hp'
     · cases hp'
@@ -170,18 +170,18 @@ theorem areasOf_good_R5 {c : Ctx} {f : Feat} (hf : featOK c f = true) (h gid : I
       · have hge : s ≤ q.lo := g2
         simp [areasOf, hext, hcr, hrc, adjustCrossOrigin, Area.crossesOrigin, Area.fromFeature, Feat.start,
           Feat.end, Feat.coreStart, Feat.coreEnd, he2, hge]
-        have : ¬ (q.hi < q.lo) := by omega
+        have : ¬ (q.hi ≤ q.lo) := by omega
         simp [this]
         apply good_single <;> fin
       · have hlt : ¬ (s ≤ q.lo) := by omega
         simp [areasOf, hext, hcr, hrc, adjustCrossOrigin, Area.crossesOrigin, Area.fromFeature, Feat.start,
           Feat.end, Feat.coreStart, Feat.coreEnd, he2, hlt]
-        have : ¬ (q.hi < q.lo) := by omega
+        have : ¬ (q.hi ≤ q.lo) := by omega
         simp [this]
         apply good_single <;> fin
     · cases hp'
       subst hq
-      have : ce < cs := by omega
+      have : ce ≤ cs := by omega
       simp [areasOf, hext, hcr, hrc, adjustCrossOrigin, Area.crossesOrigin, Area.fromFeature, Feat.start,
         Feat.end, Feat.coreStart, Feat.coreEnd, he2, this]
       apply good_single <;> fin
